@@ -672,7 +672,14 @@ class SetupFailed(Exception):
 # ------------------------------------------------------------------------------------------------ running
 def run_script(ctx, case):
     b, info = build(case)
-    pool = ctx.pool("asan", nprocs=b.k, env={"PNETCDF_SAFE_MODE": "1"} if case.get("safe") else None)
+    env = {}
+    if case.get("safe"):
+        env["PNETCDF_SAFE_MODE"] = "1"
+    if b.k > 1:
+        # mpiexec binds the ranks of every 2-process job to the same two cores by default; concurrent pools of the
+        # workers would then all share those cores
+        env["OMPI_MCA_hwloc_base_binding_policy"] = "none"
+    pool = ctx.pool("asan", nprocs=b.k, env=env or None)
     res, d = pool.run(b.s, keepdir=True)
     try:
         probs, facts = evaluate(b, res, d, case)
